@@ -96,7 +96,7 @@ fn arrange(src: &mut Src, helpers: Vec<String>, target: String) -> Vec<String> {
 
 fn gen_pair(src: &mut Src) -> Pair {
     let header = ["AUTOMATIC TAGS", "EXPLICIT TAGS", "IMPLICIT TAGS", "AUTOMATIC TAGS EXTENSIBILITY IMPLIED"][src.pick(4)].to_string();
-    match src.pick(7) {
+    match src.pick(9) {
         // (a) value reference / named number in a constraint, with reference chains
         0 => {
             let n = [1i128, 5, 255, 256, 65535, 70000][src.pick(6)];
@@ -373,6 +373,73 @@ fn gen_pair(src: &mut Src) -> Pair {
         }
         // (e) fixed-type class field; the fixed type may carry a constraint, written with a literal
         // or with a value reference (which the expansion resolves)
+        // (h) COMPONENTS OF a type that uses COMPONENTS OF itself (always in last position,
+        // where the expansion keeps the order), two to four levels, names in any order
+        7 => {
+            let levels = 2 + src.pick(3);
+            let set = src.chance(30);
+            let kw = if set { "SET" } else { "SEQUENCE" };
+            let mut names: Vec<String> = vec![TARGET.to_string()];
+            for l in 1..levels {
+                let pre = ["Aa", "Bb", "Yy", "Zz"][src.pick(4)];
+                names.push(format!("{pre}-Lvl{l}"));
+            }
+            let mut own: Vec<Vec<String>> = vec![];
+            for l in 0..levels {
+                let k = 1 + src.pick(2);
+                own.push((0..k).map(|i| format!("c{l}x{i} {}{}", leaf(src), if src.chance(25) { " OPTIONAL" } else { "" })).collect());
+            }
+            // an inner level may be extensible: only its root components travel on
+            let ext_level = if src.chance(30) { 1 + src.pick(levels - 1) } else { 0 };
+            let mut helpers = vec![];
+            for l in (1..levels).rev() {
+                let mut comps = own[l].clone();
+                if l + 1 < levels {
+                    comps.push(format!("COMPONENTS OF {}", names[l + 1]));
+                }
+                if l == ext_level {
+                    comps.push("...".into());
+                    // (additions of its own next to COMPONENTS OF are finding F-compof)
+                    if l + 1 == levels {
+                        comps.push(format!("x{l} NULL OPTIONAL"));
+                    }
+                }
+                helpers.push(format!("{} ::= {kw} {{ {} }}", names[l], comps.join(", ")));
+            }
+            if src.chance(50) {
+                helpers.reverse();
+            }
+            let mut sug = own[0].clone();
+            sug.push(format!("COMPONENTS OF {}", names[1]));
+            let exp: Vec<String> = own.iter().flatten().cloned().collect();
+            Pair {
+                kind: format!("components-of-chain levels={levels} set={set} ext_level={ext_level} order={}", names[1..].iter().map(|n| &n[..2]).collect::<Vec<_>>().join(">")),
+                sugared: arrange(src, helpers, format!("{TARGET} ::= {kw} {{ {} }}", sug.join(", "))),
+                expanded: vec![format!("{TARGET} ::= {kw} {{ {} }}", exp.join(", "))],
+                wrong: vec![],
+                header,
+                nontrivial: true,
+            }
+        }
+        // (i) an instance of a parameterized type whose body uses COMPONENTS OF
+        8 => {
+            let p = hname(src, "Tmpl", true);
+            let base = hname(src, "Incl", true);
+            let nb = 1 + src.pick(2);
+            let base_comps: Vec<String> = (0..nb).map(|i| format!("b{i} {}", leaf(src))).collect();
+            // (NULL as an actual parameter is finding F-param-null-arg)
+            let arg = match leaf(src) { "NULL" => "BOOLEAN", l => l };
+            let lead = if src.chance(50) { format!("lead {}, ", leaf(src)) } else { String::new() };
+            let helpers = vec![format!("{p} {{ T }} ::= SEQUENCE {{ {lead}t T, COMPONENTS OF {base} }}"), format!("{base} ::= SEQUENCE {{ {} }}", base_comps.join(", "))];
+            Pair {
+                kind: format!("parameterized-with-components-of template={} included={}", &p[..2], &base[..2]),
+                sugared: arrange(src, helpers, format!("{TARGET} ::= {p} {{ {arg} }}")),
+                expanded: vec![format!("{TARGET} ::= SEQUENCE {{ {lead}t {arg}, {} }}", base_comps.join(", "))],
+                wrong: vec![],
+                header,
+                nontrivial: true,
+            }
+        }
         _ => {
             let lim = [7i128, 255, 70000][src.pick(3)];
             let vname = hname(src, "max-id", false);
